@@ -19,7 +19,8 @@ type c14Case struct {
 	Order    []int           `json:"order"`
 	AdvPerm  [][]int         `json:"adv_perm"`
 	Churn    []int           `json:"churn"`
-	Prior    [][]vw.BGPAdv   `json:"prior"` // per session: an earlier advertisement list (nil = none)
+	Prior    [][]vw.BGPAdv   `json:"prior"`              // per session: an earlier advertisement list (nil = none)
+	Rejected []VerifRejected `json:"rejected,omitempty"` // Set calls that must be refused and change nothing
 }
 
 func c14Perm(rt *rapid.T, n int, label string) []int {
@@ -43,6 +44,13 @@ func genC14(rt *rapid.T) c14Case {
 	for _, s := range c.Sessions {
 		c.Prior = append(c.Prior, vw.GenPriorAdvs(rt, s.Advs))
 	}
+	if len(c.Sessions) > 0 {
+		for i, n := 0, rapid.IntRange(0, 2).Draw(rt, "nrejected"); i < n; i++ {
+			j := rapid.IntRange(0, len(c.Sessions)-1).Draw(rt, "rejSession")
+			advs := vw.GenPriorAdvs(rt, c.Sessions[j].Advs)
+			c.Rejected = append(c.Rejected, VerifRejected{Session: j, Kind: rapid.IntRange(0, 1).Draw(rt, "rejKind"), Advs: advs})
+		}
+	}
 	return c
 }
 
@@ -59,12 +67,15 @@ func runC14(c c14Case, tr *vw.Trace) *vw.Violation {
 		panic("verif-inconclusive: interpreter does not know a construct: " + err.Error())
 	}
 	// determinism: creation order, advertisement order, close/re-create history
-	text2, err := VerifRender(c.Sessions, c.Order, c.AdvPerm, c.Churn, c.Prior)
+	text2, err := VerifRenderR(c.Sessions, c.Order, c.AdvPerm, c.Churn, c.Rejected, c.Prior)
 	if err != nil {
 		return vw.Violationf("render-error", "rendering (permuted) failed: %v", err)
 	}
+	if len(c.Rejected) > 0 {
+		tr.Class("history-with-refused-set")
+	}
 	if text2 != text {
-		return vw.Violationf("text-depends-on-order", "the configuration text depends on creation order / advertisement order / earlier Set calls / session churn:\n--- canonical\n%s\n--- permuted (order %v churn %v)\n%s", text, c.Order, c.Churn, text2)
+		return vw.Violationf("text-depends-on-order", "the configuration text depends on creation order / advertisement order / earlier (accepted or refused) Set calls / session churn:\n--- canonical\n%s\n--- permuted (order %v churn %v)\n%s", text, c.Order, c.Churn, text2)
 	}
 	subset, repeated := false, false
 	all := map[string]bool{}
